@@ -354,3 +354,14 @@ mod tests {
     assert_eq!(result, expected);
   }
 }
+
+/// Verification hook: forwarder to the private field coercion. Compiled only
+/// with `--cfg anweiss_cddl_verif`.
+#[cfg(anweiss_cddl_verif)]
+#[doc(hidden)]
+#[allow(missing_docs)]
+pub mod verif_hooks {
+  pub fn coerce_field(field: &str) -> serde_json::Value {
+    super::coerce_field(field)
+  }
+}
